@@ -104,7 +104,7 @@ Lemma indent_text_L p t : L p = [] -> L (indent_text ws p t) = L t.
 Proof.
   intros Hp. unfold indent_text. rewrite (MdProofs.L_flat_map keep).
   rewrite (flat_map_ext _ (fun l => L l)) by (intros l; destruct (forallb ws l); [reflexivity|rewrite proj_app, Hp; reflexivity]).
-  unfold splitlines_keep. rewrite (MdProofs.splitlines_keep_L U strip_end_rx strip_end_rx keep (length t) t [] (le_n _)). reflexivity.
+  unfold lines_lf_keep. rewrite (MdProofs.lines_lf_keep_L keep t []). reflexivity.
 Qed.
 Lemma indent3_L t : L (indent3 ws t) = L t.
 Proof. apply indent_text_L. apply L_lit. reflexivity. Qed.
